@@ -11,6 +11,8 @@ import (
 type config struct {
 	ninit int
 	progs [][]string
+	bound int // preemption bound of the DFS (0 = default 3)
+	max   int // cap on the number of schedules in the quick tier (0 = default)
 }
 
 func (c config) header() string {
@@ -21,33 +23,44 @@ func p(calls ...string) []string { return calls }
 
 // DFS configurations: every schedule with ≤ 3 preemptions is executed.
 var quickDFS = []config{
-	{0, [][]string{p("u11"), p("o")}},
-	{0, [][]string{p("u11"), p("o"), p("l")}},
-	{0, [][]string{p("u11"), p("u21")}},
-	{1, [][]string{p("o"), p("o")}},
-	{2, [][]string{p("o"), p("o"), p("l")}},
-	{0, [][]string{p("u11"), p("u21"), p("o")}},
-	{1, [][]string{p("u11", "o"), p("o", "u21")}},
-	{0, [][]string{p("u11", "u12"), p("o", "o")}},
-	{0, [][]string{p("u11", "o"), p("u21", "o"), p("l", "l")}},
-	{1, [][]string{p("u11", "o"), p("o", "u21"), p("o", "l")}},
+	{ninit: 0, progs: [][]string{p("u11"), p("o")}},
+	{ninit: 0, progs: [][]string{p("u11"), p("o"), p("l")}},
+	{ninit: 0, progs: [][]string{p("u11"), p("u21")}},
+	{ninit: 1, progs: [][]string{p("o"), p("o")}},
+	{ninit: 2, progs: [][]string{p("o"), p("o"), p("l")}},
+	{ninit: 0, progs: [][]string{p("u11"), p("u21"), p("o")}},
+	{ninit: 1, progs: [][]string{p("u11", "o"), p("o", "u21")}},
+	{ninit: 0, progs: [][]string{p("u11", "u12"), p("o", "o")}},
+	{ninit: 0, progs: [][]string{p("u11", "o"), p("u21", "o"), p("l", "l")}},
+	{ninit: 1, progs: [][]string{p("u11", "o"), p("o", "u21"), p("o", "l")}},
 	// PopWait: `w` = PopWait(-1) spins (Pop, Gosched) until a push is published,
 	// `z` = PopWait(0) is one Pop.  Every `w` is guaranteed a value (see feasible).
-	{0, [][]string{p("w"), p("u11")}},
-	{1, [][]string{p("w"), p("u11"), p("o")}},
-	{1, [][]string{p("z"), p("o"), p("u11")}},
-	{0, [][]string{p("w", "w"), p("u11", "u12")}},
-	{3, [][]string{p("w", "u11"), p("w", "z")}},
+	{ninit: 0, progs: [][]string{p("w"), p("u11")}},
+	{ninit: 1, progs: [][]string{p("w"), p("u11"), p("o")}},
+	{ninit: 1, progs: [][]string{p("z"), p("o"), p("u11")}},
+	{ninit: 0, progs: [][]string{p("w", "w"), p("u11", "u12")}},
+	{ninit: 3, progs: [][]string{p("w", "u11"), p("w", "z")}},
+	// three-party windows: pusher A stalled between link and publication, pusher B
+	// spinning / overtaking, popper C, Len observer
+	{ninit: 0, progs: [][]string{p("u11"), p("u21"), p("o"), p("l")}, bound: 2, max: 2500},
+	{ninit: 1, progs: [][]string{p("u11"), p("u21"), p("o", "l")}, max: 2500},
+	{ninit: 0, progs: [][]string{p("u11"), p("u21"), p("w"), p("l")}, bound: 2, max: 2500},
+	// after a failure: Pop / PopWait(0) returning false (empty, lost CAS) followed by
+	// ordinary calls in the same thread
+	{ninit: 0, progs: [][]string{p("o", "u11", "o"), p("z", "u21", "l")}, max: 2500},
 }
 
 var thoroughDFS = []config{
-	{0, [][]string{p("u11", "o"), p("u21", "o"), p("u31", "o")}},
-	{1, [][]string{p("u11", "u12", "o"), p("o", "o", "u21"), p("l", "o", "l")}},
-	{0, [][]string{p("u11"), p("u21"), p("o"), p("o")}},
-	{2, [][]string{p("o", "u11"), p("o", "u21"), p("o", "l"), p("u41", "o")}},
-	{0, [][]string{p("u11", "u12", "u13"), p("o", "o", "o"), p("o", "u31", "l"), p("l", "u41", "o")}},
-	{0, [][]string{p("w", "z"), p("u11", "u12"), p("w", "l"), p("u41")}},
-	{1, [][]string{p("w", "u11"), p("u21", "w"), p("o", "u31")}},
+	{ninit: 0, progs: [][]string{p("u11", "o"), p("u21", "o"), p("u31", "o")}},
+	{ninit: 1, progs: [][]string{p("u11", "u12", "o"), p("o", "o", "u21"), p("l", "o", "l")}},
+	{ninit: 0, progs: [][]string{p("u11"), p("u21"), p("o"), p("o")}},
+	{ninit: 2, progs: [][]string{p("o", "u11"), p("o", "u21"), p("o", "l"), p("u41", "o")}},
+	{ninit: 0, progs: [][]string{p("u11", "u12", "u13"), p("o", "o", "o"), p("o", "u31", "l"), p("l", "u41", "o")}},
+	{ninit: 0, progs: [][]string{p("w", "z"), p("u11", "u12"), p("w", "l"), p("u41")}},
+	{ninit: 1, progs: [][]string{p("o", "o", "u11"), p("o", "z", "o")}},
+	{ninit: 0, progs: [][]string{p("u11"), p("u21"), p("o"), p("l")}},
+	{ninit: 0, progs: [][]string{p("u11"), p("u21"), p("w"), p("l")}},
+	{ninit: 1, progs: [][]string{p("w", "u11"), p("u21", "w"), p("o", "u31")}},
 }
 
 // feasible: every PopWait(-1) eventually finds a value under round-robin completion.
@@ -139,7 +152,14 @@ func corpus() []core.Case {
 	}
 	for _, cfg := range cfgs {
 		hdr := cfg.header()
-		drive.DFS(factory(cfg.ninit, cfg.progs), bound, maxDepth, maxSched, func(lines []string) bool {
+		b, m := bound, maxSched
+		if cfg.bound > 0 {
+			b = cfg.bound
+		}
+		if cfg.max > 0 && tier != "thorough" {
+			m = cfg.max
+		}
+		drive.DFS(factory(cfg.ninit, cfg.progs), b, maxDepth, m, func(lines []string) bool {
 			cases = append(cases, core.Case{Tag: "dfs", Lines: append([]string{hdr}, lines...)})
 			return true
 		})
